@@ -59,12 +59,19 @@ MCCheckAll == {CheckOk1, [d |-> "okdeferred", src |-> "ondemand", dis |-> TRUE, 
                [d |-> "throttled", src |-> "same", dis |-> FALSE, same |-> FALSE, proxy |-> TRUE],
                [d |-> "denied", src |-> "same", dis |-> FALSE, same |-> FALSE, proxy |-> TRUE]}
 MCCheckSched == {CheckOk1, [d |-> "throttled", src |-> "same", dis |-> FALSE, same |-> FALSE, proxy |-> TRUE]}
+MCCheckOkOnly == {CheckOk1}
 MCNextAll == {[kind |-> "both", dt |-> 3600, minwait |-> None], [kind |-> "wall", dt |-> 60, minwait |-> Some(30)],
               [kind |-> "mono", dt |-> 60, minwait |-> Some(30)]}
 MCNext1 == {[kind |-> "both", dt |-> 3600, minwait |-> None]}
 
 MCDraws2 == {-500, 499}
 MCDraws3 == {-500, 0, 499}
+MCRestartNone == {}
+\* restarts: same presets on the same OS; on the target version; with different embedder presets
+AppAPreset == [id |-> "a", ver |-> "1.2.3.4", cohort |-> [name |-> "preset-name"], uc |-> None]
+MCRestarts == {[os |-> "1.0", apps |-> MCApps1], [os |-> "2.0.0.0", apps |-> MCApps1], [os |-> "2.0.0.0", apps |-> <<AppAPreset>>]}
+MCUcHistory == {Resp(200, AuthOk, <<>>, [doc |-> Doc(<<Entry("a", "ok", "2.0.0.0", [id |-> "c9", hint |-> ""])>>, D77)]),
+                Resp(200, AuthOk, X5, [doc |-> SmallDoc]), [cls |-> "transport"], Resp(200, AuthOk, <<>>, [garbage |-> "trunc"])}
 MCProg0 == {<<>>}
 MCProg2 == {<<>>, <<250, 750>>}
 MCNoSrc == {}
